@@ -411,7 +411,7 @@ func parseConditionToQuery(cond *modelv1.Condition, indexRule *databasev1.IndexR
 		}
 		query, node := bluge.NewBooleanQuery(), newMustNotNode()
 		query.AddMustNot(subQuery)
-		node.SetSubNode(node)
+		node.SetSubNode(subNode)
 		return &queryNode{query, node}, nil
 	case modelv1.Condition_BINARY_OP_IN:
 		if inErr := validateINCondition(cond); inErr != nil {
